@@ -6,7 +6,30 @@ use std::sync::Mutex;
 
 pub type Task = Box<dyn FnOnce() -> Outcome + Send>;
 
+/// (shard index, number of shards) when this process is a shard child: only tasks whose
+/// index is congruent to the shard index are run.
+pub static SHARD: Mutex<Option<(usize, usize)>> = Mutex::new(None);
+static CALLS: Mutex<usize> = Mutex::new(0);
+
+pub fn is_primary() -> bool {
+    match *SHARD.lock().unwrap() {
+        None => true,
+        Some((i, _)) => i == 0,
+    }
+}
+
 pub fn run_all(tasks: Vec<Task>, threads: usize) -> Outcome {
+    let shard = *SHARD.lock().unwrap();
+    let tasks: Vec<Task> = match shard {
+        None => tasks,
+        Some((i, n)) => {
+            // rotate the assignment between successive calls so that small task lists spread out
+            let mut c = CALLS.lock().unwrap();
+            let rot = *c * 7;
+            *c += 1;
+            tasks.into_iter().enumerate().filter(|(k, _)| (k + rot) % n == i).map(|(_, t)| t).collect()
+        }
+    };
     let q: Mutex<VecDeque<Task>> = Mutex::new(tasks.into());
     let total: Mutex<Outcome> = Mutex::new(Outcome::new());
     std::thread::scope(|s| {
